@@ -97,6 +97,25 @@ namespace
     };
     static_assert(std::is_trivially_destructible<SelfRef>::value && !std::is_trivially_copyable<SelfRef>::value, "SelfRef: trivial destructor, real copy");
     int val_of(const SelfRef &t) { return t.self == &t.v ? t.v : -777777; } // (an element whose pointer aims elsewhere reads as -777777)
+    // a vector of vectors: the element is itself an igris::vector (over the same simulated allocator); VecElem(x) holds
+    // x % 3 + 1 integers x, x+1, ... - an element whose inner vector lost, duplicated or mixed up its content reads as -888888
+    struct VecElem
+    {
+        igris::vector<int, AllocX<int>> v;
+        VecElem(int x = 0) { for (int i = 0; i <= ((x % 3) + 3) % 3; i++) v.push_back(x + i); }
+        int value() const
+        {
+            if (v.size() == 0) return -888888;
+            int x = v[0];
+            if (v.size() != (size_t)(((x % 3) + 3) % 3 + 1)) return -888888;
+            for (size_t i = 0; i < v.size(); i++) if (v[i] != x + (int)i) return -888888;
+            return x;
+        }
+        bool operator==(const VecElem &o) const { return value() == o.value(); }
+        bool operator!=(const VecElem &o) const { return !(*this == o); }
+        bool operator<(const VecElem &o) const { return value() < o.value(); }
+    };
+    int val_of(const VecElem &t) { return t.value(); }
     template <class E> long dtor_count() { return -1; }
     template <> long dtor_count<Handle>() { return Handle::dtors; }
 
@@ -933,6 +952,7 @@ int main(int argc, char **argv)
     VecWorld<Handle> wh(PROP_WORLD "<implicit-copy-with-own-destructor>", false);
     VecWorld<Nest> wn(PROP_WORLD "<value-constructible-from-a-list-of-itself>", false);
     VecWorld<SelfRef> wsr(PROP_WORLD "<element-pointing-into-itself>", false);
+    VecWorld<VecElem> wvv(PROP_WORLD "<vector-of-vectors>", false);
     Harness h;
     h.property = "C02";
     h.worlds = {&wi, &wt};
@@ -949,6 +969,7 @@ int main(int argc, char **argv)
     BigVecWorld wb;
     h.worlds.push_back(&wb);
     h.worlds.push_back(&wsr);
+    h.worlds.push_back(&wvv);
     h.stub = {"SimAlloc behind the Allocator parameter (exact-size blocks, seed-chosen fill and reuse)", "Tracked element type (lifetime registry)", "std::vector / std::map / std::set reference"};
     return harness_main(h, argc, argv);
 }
